@@ -136,7 +136,9 @@ class Universe:
         steps = []
         for t in self.types.values():
             if t["exportable"] and not t["out_s"].startswith("../../"):
-                steps.append({"rel": "bindings/" + t["out_s"], "content": "// stale\n\nexport type Stale = { old: true };\n"})
+                # (longer than anything the universe writes: a first write that does not truncate leaves its tail)
+                steps.append({"rel": "bindings/" + t["out_s"], "content": "// stale\n\nexport type Stale = { old: true };\n" +
+                              "".join("\nexport type Stale%d = { older: %d, padding: \"%s\" };\n" % (k, k, "x" * 60) for k in range(40))})
         steps.append({"rel": "bindings/unrelated.txt", "content": "keep me\n"})
         steps.append({"rel": "bindings/keepdir/inner.ts", "content": "// not ours\n\nexport type Inner = 1;\n"})
         seen, out = set(), []
